@@ -162,11 +162,14 @@ def bidirectional(net):
     net.converged = False
     if not get_net_option(net, "reuse_internal_data") or "_internal_data" not in net:
         net["_internal_data"] = dict()
-    solver_vars = ['mdot', 'p', 'TOUT', 'T']
+    # one name, tolerance and pit per pair of values returned by solve_bidirectional
+    # (hydraulics: mdot, p, mdotslack; heat transfer: TOUT, T)
+    solver_vars = ['mdot', 'p', 'mdotslack', 'TOUT', 'T']
     tol_m, tol_p, tol_temp = get_net_options(net, 'tol_m', 'tol_p', 'tol_T')
     newton_raphson(
-        net, solve_bidirectional, 'bidirectional', solver_vars, [tol_m, tol_p, tol_temp, tol_temp],
-        ['branch', 'node', 'branch', 'node'], 'max_iter_bidirect'
+        net, solve_bidirectional, 'bidirectional', solver_vars,
+        [tol_m, tol_p, tol_m, tol_temp, tol_temp], ['branch', 'node', 'node', 'branch', 'node'],
+        'max_iter_bidirect'
     )
     if net.converged:
         set_user_pf_options(net, hyd_flag=True)
